@@ -478,6 +478,39 @@ def r12_same_normalisation_both_sides(idx, r):
         raise AnchorMissing("getISOTXSLibrariesToMerge: comparison with os.path.basename(...)")
 
 
+def r13_assigned_means_not_none_and_fresh_accumulators(idx, r):
+    """(a) For the per-nuclide PMATRX-type records 'assigned' means 'is not None': two libraries that both carry the record conflict whatever
+    the numbers are; a test on the VALUES (np.any, truthiness) lets an all-zero record be silently replaced.  (b) the macroscopic vectors are
+    accumulated in place (`+=`): each must start as a freshly allocated zero array - the class-wide cached default vector of XSCollection is
+    shared with every nuclide that lacks a reaction, so accumulating into it corrupts the microscopic library and every later composition."""
+    f = idx.func("armi.nuclearDataIO.xsNuclides._mergeAttributes")
+    env = single_assign_env(f.node)
+    rz = [x for x in walk_local(f.node) if isinstance(x, ast.Raise)]
+    if len(rz) != 1:
+        raise AnchorMissing("_mergeAttributes: the conflict raise")
+    terms = []
+    for t, p in path_conditions(f.node, rz[0]):
+        t = propagate(t, env)
+        terms += (t.values if isinstance(t, ast.BoolOp) and isinstance(t.op, ast.And) and p else [t])
+    flat = []
+    for t in terms:
+        t = propagate(t, env)
+        flat += (t.values if isinstance(t, ast.BoolOp) and isinstance(t.op, ast.And) else [t])
+    bad = [t for t in flat if not (isinstance(t, ast.Compare) and len(t.ops) == 1 and isinstance(t.ops[0], ast.IsNot) and norm(t.comparators[0]) == "None")]
+    r.require(len(flat) >= 2 and not bad, "_mergeAttributes:conflict-iff-both-present", f, node=rz[0],
+              msg=f"the conflict is raised under `{' and '.join(norm(t) for t in flat)}`: whether a record is present must not depend on its values (`{norm(bad[0]) if bad else ''}`), or an all-zero record "
+                  "on one side is silently replaced by the other library's")
+    g = idx.method(XSC + ".MacroscopicCrossSectionCreator", "_initializeMacros")
+    sets = [c for c in iter_calls(g.node) if dotted(c.func) == "setattr" and len(c.args) == 3]
+    if not sets:
+        raise AnchorMissing("_initializeMacros: setattr(m, name, <initial value>)")
+    for n_, c in enumerate(sets):
+        v = c.args[2]
+        fresh = isinstance(v, ast.Call) and (dotted(v.func) or "").rsplit(".", 1)[-1] in ("zeros", "zeros_like", "lil_matrix", "csr_matrix", "csc_matrix", "array", "empty", "full")
+        r.require(fresh, f"_initializeMacros:accumulator{n_}:freshly-allocated", g, node=c,
+                  msg=f"`{norm(c)[:80]}` starts a macroscopic accumulator from `{norm(v)[:50]}`, not from a freshly allocated array: the in-place `+=` of the summation then writes into a shared object")
+
+
 def run(idx, chk):
     chk.explanation = (
         "C10: metadata/collection merges never write into their inputs and raise on conflicts; direct stores into the target library happen only "
@@ -508,3 +541,5 @@ def run(idx, chk):
                  necessary="a merge never silently drops data; derived sums skip, not crash on, what a library does not carry")
     chk.run_rule("R10.12", "the plain/suffixed library pairing compares base names on both sides", lambda r: r12_same_normalisation_both_sides(idx, r), floor=1,
                  necessary="a directory holding ISOxx and ISOxx-<suffix> merges to the suffixed data, without a refused double merge")
+    chk.run_rule("R10.13", "a PMATRX-type record is 'assigned' iff it is not None; macroscopic accumulators start as fresh arrays", lambda r: r13_assigned_means_not_none_and_fresh_accumulators(idx, r), floor=3,
+                 necessary="conflicting data are refused whatever their values; macroscopic sums are the density-weighted sums of the micros for every composition")
